@@ -68,6 +68,7 @@ func (s Stack) Name() string {
 
 type built struct {
 	reg      ociregistry.Interface // what the caller talks to
+	spy      *spy                  // the same, remembering the last error it handed out
 	rec      *recorder
 	mem      *ocimem.Registry // instance B
 	inflight int64            // handlers running in any of the servers
@@ -183,6 +184,7 @@ func build(s Stack) *built {
 	if s.DbgClient {
 		reg = ocidebug.New(reg, nolog)
 	}
-	b.reg = reg
+	b.spy = newSpy(reg)
+	b.reg = b.spy
 	return b
 }
